@@ -590,20 +590,20 @@ pid_t waitpid(pid_t pid, int *st, int opts)
     if (n == 0) return r_waitpid(pid, st, opts);
     char info[96]; int p = 0;
     int c;
-    if (policy == 1) {
-        /* eager: default = reap the lowest un-reaped worker (blocks until it has exited); last alternative: none yet */
+    /* "no child yet" is always an alternative: while pipes are open it is the default under policy 0 (drain first);
+     * with no pipe open it is the LAST alternative (a deviation): the worker has closed its pipe but is not a zombie
+     * yet when the parent polls.  Deviation bounding keeps the exploration finite although the parent's loop polls. */
+    if (policy == 1 || !nopen) {
         for (int i = 0; i < n && p < 80; i++) p += snprintf(info + p, sizeof info - p, "w%d,", idx[i]);
-        if (nopen) snprintf(info + p, sizeof info - p, "none");
-        c = choose('R', n + (nopen ? 1 : 0), 0, info);
-        if (nopen && c == n) return 0;
+        snprintf(info + p, sizeof info - p, "none");
+        c = choose('R', n + 1, 0, info);
+        if (c == n) return 0;
     } else {
-        if (nopen) p += snprintf(info, sizeof info, "none,");
+        p += snprintf(info, sizeof info, "none,");
         for (int i = 0; i < n && p < 80; i++) p += snprintf(info + p, sizeof info - p, "w%d,", idx[i]);
-        c = choose('R', n + (nopen ? 1 : 0), 0, info);
-        if (nopen) {
-            if (c == 0) return 0;
-            c--;
-        }
+        c = choose('R', n + 1, 0, info);
+        if (c == 0) return 0;
+        c--;
     }
     int w = idx[c];
     pid_t r;
